@@ -27,6 +27,7 @@ import (
 	"strconv"
 	"syscall"
 
+	"github.com/oklog/ulid/v2"
 	"github.com/versity/versitygw/auth"
 	"github.com/versity/versitygw/backend"
 	"github.com/versity/versitygw/internal/verifhook"
@@ -167,9 +168,15 @@ func (tmp *tmpfile) link() error {
 	// from simultaneous uploads.
 	verifhook.Point("link.enter")
 	objPath := filepath.Join(tmp.bucket, tmp.objname)
-	err := os.Remove(objPath)
-	if err != nil && !errors.Is(err, fs.ErrNotExist) {
-		return fmt.Errorf("remove stale path: %w", err)
+	// An existing object is replaced atomically below (rename), so that the
+	// key never appears missing to concurrent readers or after a crash.
+	// Only a stale (empty) directory in the way needs to be removed first.
+	fi, err := os.Lstat(objPath)
+	if err == nil && fi.IsDir() {
+		err = os.Remove(objPath)
+		if err != nil && !errors.Is(err, fs.ErrNotExist) {
+			return fmt.Errorf("remove stale path: %w", err)
+		}
 	}
 
 	verifhook.Point("link.afterRemove")
@@ -202,11 +209,13 @@ func (tmp *tmpfile) link() error {
 		err = unix.Linkat(int(procdir.Fd()), filepath.Base(tmp.f.Name()),
 			int(dirf.Fd()), filepath.Base(objPath), unix.AT_SYMLINK_FOLLOW)
 		if errors.Is(err, syscall.EEXIST) {
-			err := os.Remove(objPath)
-			if err != nil && !errors.Is(err, fs.ErrNotExist) {
-				return fmt.Errorf("remove stale path: %w", err)
+			// linkat cannot replace an existing name: link the new file
+			// under a temporary name and rename it over the object
+			err = tmp.replaceLink(int(procdir.Fd()), objPath)
+			if err != nil {
+				return err
 			}
-			continue
+			break
 		}
 		if err != nil {
 			return fmt.Errorf("link tmpfile (fd %q as %q): %w",
@@ -219,6 +228,34 @@ func (tmp *tmpfile) link() error {
 	err = tmp.f.Close()
 	if err != nil {
 		return fmt.Errorf("close tmpfile: %w", err)
+	}
+
+	return nil
+}
+
+// replaceLink links the unnamed temp file under a unique name in the
+// temp directory of the bucket and renames it over objPath. The rename
+// replaces the existing object atomically.
+func (tmp *tmpfile) replaceLink(procfd int, objPath string) error {
+	tmpdir := filepath.Join(tmp.bucket, metaTmpDir)
+	err := backend.MkdirAll(tmpdir, tmp.uid, tmp.gid, tmp.needsChown, tmp.newDirPerm)
+	if err != nil {
+		return fmt.Errorf("make temp dir: %w", err)
+	}
+
+	tmpname := filepath.Join(tmpdir, fmt.Sprintf("%x.%v",
+		sha256.Sum256([]byte(tmp.objname)), ulid.Make().String()))
+	err = unix.Linkat(procfd, filepath.Base(tmp.f.Name()),
+		unix.AT_FDCWD, tmpname, unix.AT_SYMLINK_FOLLOW)
+	if err != nil {
+		return fmt.Errorf("link tmpfile (fd %q as %q): %w",
+			filepath.Base(tmp.f.Name()), tmpname, err)
+	}
+
+	err = os.Rename(tmpname, objPath)
+	if err != nil {
+		os.Remove(tmpname)
+		return fmt.Errorf("rename tmpfile (%q as %q): %w", tmpname, objPath, err)
 	}
 
 	return nil
